@@ -626,6 +626,34 @@ def r02_20(run, model):
                        "x: int32 } emits the field x twice; a trait declaring one method twice keeps the last signature")
 
 
+def r02_21(run, model):
+    run.rule("R02.21", "the Go printer never lets a line end after an operand: Go's lexer inserts a semicolon at a newline that follows an "
+                       "identifier, a literal or a closing bracket, so in the arm that prints a binary operation no breakable document "
+                       "(`RcDoc::line`, `softline`, ..) stands between the left operand and the operator")
+    GOPP = "crates/compiler/src/pprint/go_pprint.rs"
+    arms = []
+    for f in model.fns(GOPP):
+        if f.body is None or f.name != "to_doc":
+            continue
+        for m_ in S.find(f.body, "Match"):
+            for arm in m_["arms"]:
+                if re.match(r"Expr::BinaryOp\{", S.norm_ws(run.facts.text(GOPP, arm["pat"]["sp"]))):
+                    arms.append(arm)
+    if not arms:
+        raise AnalysisIncomplete("go_pprint: the arm printing a binary operation was not found")
+    for arm in arms:
+        ops = [c for c in S.walk(arm["body"]) if c["k"] == "MethodCall" and c["method"] == "doc" and S.is_path(c["recv"], "op")]
+        if not ops:
+            raise AnalysisIncomplete("go_pprint: the operator's document was not found in the binary-operation arm")
+        op_pos = (ops[0]["sp"][0], ops[0]["sp"][1])
+        breaks = [c for c in S.walk(arm["body"]) if c["k"] == "Call" and (S.callee_segs(c) or [None])[-1] in ("line", "line_", "softline", "softline_", "hardline")
+                  and (c["sp"][0], c["sp"][1]) < op_pos]
+        run.ob("R02.21", "Expr::to_doc|no line break between the left operand and a binary operator", not breaks, site(GOPP, (breaks or [arm])[0]["sp"]),
+               f"breakable documents before the operator: {len(breaks)}",
+               witness="a concatenation wider than the page width is printed as `lhs` / `    + rhs` on two lines: Go ends the statement after "
+                       "`lhs` and the file no longer parses")
+
+
 def r02_19(run, model):
     from rules import c01 as _c01
     _c01.r01_9(run, model, only_fns=(r"::go::",), rid="R02.19", floor=18)
@@ -655,6 +683,10 @@ def run(run, model):
     # the Go-level rewrites (known-variant selection, dead-code elimination) leave invalid Go behind when a nested block is skipped
     run.try_rule(r02_19, model)
     run.try_rule(r02_20, model)
+    run.try_rule(r02_21, model)
+    # a declaration and the variables bound to its calls agree on the converted result type (shared with C08 R08.19)
+    from rules import c08 as _c08b
+    run.try_rule(_c08b.r08_19, model)
     # what the Go printer writes between quotes must be acceptable Go source text (shared with C11 R11.8)
     from rules import c11 as _c11
     run.try_rule(_c11.r11_8, model)
